@@ -95,6 +95,42 @@ static inline void dwell()
         (void) g_dwell_var.load();
 }
 
+// ---------------------------------------------------------------- tie A (variant ilist_hp): names and markers for the replay
+// (Lean machine Algo/Iterable, `cdsdriver replay iterable`, pre-pass tools/iterable_pre.py)
+//   nodes:    the node allocator below names the words of every list node in allocation order: `n<i>` (next) and
+//             `n<i>.data`, i = 3, 4, ... (1 and 2 are the list's own head and tail: `h`, `h.data`, `t`, `t.data`)
+//   elements: `e<payload>`
+//   it.hp:    the hazard slot of the iterating thread's iterator (the first guard thread 0 allocates)
+//   markers:  `T 0 I <what>` notes delimit the sub-operations of `iterate` (begin / end() / visit / erase_at / ++ / done);
+//             `T <tid> D <payload>`: the disposer ran on this element (inside a forced scan)
+// Only names and notes: no effect on schedules, results or the trace hash of any variant.
+static bool g_tieA = false;
+static size_t g_node_seq = 3;
+static inline void imark( std::string const& s )
+{
+    if ( g_tieA )
+        ev_note( s );
+}
+template <typename T>
+struct naming_alloc {
+    typedef T value_type;
+    naming_alloc() noexcept {}
+    template <typename U> naming_alloc( naming_alloc<U> const& ) noexcept {}
+    T* allocate( size_t n, void const* = nullptr )
+    {
+        T* p = std::allocator<T>().allocate( n );
+        char nm[32];
+        std::snprintf( nm, sizeof nm, "n%zu", g_node_seq++ );
+        reg_name( p, 8, nm );                                                        // node::next
+        reg_name( reinterpret_cast<char*>( p ) + 8, 8, std::string( nm ) + ".data" );  // node::data
+        return p;
+    }
+    void deallocate( T* p, size_t n ) noexcept { std::allocator<T>().deallocate( p, n ); }
+    template <typename U> struct rebind { typedef naming_alloc<U> other; };
+    template <typename U> bool operator==( naming_alloc<U> const& ) const noexcept { return true; }
+    template <typename U> bool operator!=( naming_alloc<U> const& ) const noexcept { return false; }
+};
+
 // ---------------------------------------------------------------- deferred-free allocator for the container variants
 
 struct PoolBlock { size_t size; bool dead; };
@@ -193,20 +229,25 @@ struct ident_hash {     // SplitListSet: bucket = key mod bucket count
     template <class T> size_t operator()( T const& v ) const { return size_t( key_of::k( v )); }
 };
 struct flag_disposer {
-    template <class T> void operator()( T* p ) const { p->disposed = true; }
+    template <class T> void operator()( T* p ) const
+    {
+        p->disposed = true;
+        if ( g_tieA && current_tid() >= 0 )
+            ev_note( "D " + std::to_string( p->val ));
+    }
 };
 
 // client-owned intrusive items: never freed (an element retired in one case may be disposed in a later one)
 template <class Item>
 struct NodePool {
     static std::vector<std::unique_ptr<Item>>& all() { static std::vector<std::unique_ptr<Item>> v; return v; }
-    static Item* make( long k, long v )
+    static Item* make( long k, long v, char const* prefix = "n" )
     {
         all().emplace_back( new Item );
         Item* p = all().back().get();
         p->key = k; p->val = v; p->disposed = false;
         char nm[32];
-        std::snprintf( nm, sizeof nm, "n%ld", v );
+        std::snprintf( nm, sizeof nm, "%s%ld", prefix, v );
         reg_name( p, sizeof( Item ), nm );
         return p;
     }
@@ -265,8 +306,11 @@ static void do_walk( C& c, IterLog& L, Scan scan )
     L.ran = true;
     L.t_begin = long( tick());
     {
+        imark( "I begin" );
         auto it = Dir::b( c );
+        imark( "I endctor" );
         auto e = Dir::e( c );
+        imark( "I ready" );
         size_t n = 0;
         while ( it != e ) {
             Visit v;
@@ -275,10 +319,13 @@ static void do_walk( C& c, IterLog& L, Scan scan )
             v.id = Acc::id( it );
             v.d_arrive = Acc::disposed( it );
             v.ea = -1; v.ea_inv = v.ea_res = 0;
+            if ( g_tieA ) imark( "I visit " + std::to_string( v.id ));
             dwell();
             if ( std::find( L.erase_pos.begin(), L.erase_pos.end(), long( n )) != L.erase_pos.end()) {
                 v.ea_inv = long( tick());
+                imark( "I erase_at" );
                 bool r = c.erase_at( it );
+                imark( r ? "I erase_at_ret 1" : "I erase_at_ret 0" );
                 v.ea_res = long( tick());
                 v.ea = r ? 1 : 0;
                 // the erased element is guarded by the iterator: a scan must not dispose it while it is current
@@ -289,8 +336,10 @@ static void do_walk( C& c, IterLog& L, Scan scan )
             v.t_leave = long( tick());
             L.v.push_back( v );
             if ( ++n >= c_max_visits ) { L.runaway = true; break; }
+            imark( "I next" );
             ++it;
         }
+        imark( "I done" );
     }
     L.t_end = long( tick());
 }
@@ -329,19 +378,28 @@ struct IntrList : ICont {
         typedef flag_disposer disposer;
         typedef hint_stat stat;
         typedef cds::atomicity::item_counter item_counter;
+        typedef naming_alloc<int> node_allocator;       // std::allocator + names (tie A)
     };
     typedef ci::IterableList<GC, item, traits> list_t;
     std::unique_ptr<list_t> l;
-    IntrList() : l( new list_t ) { ordered = true; }
+    IntrList() : l( new list_t )
+    {
+        ordered = true;
+        g_node_seq = 3;
+        reg_name( &l->m_Head.next, sizeof( l->m_Head.next ), "h" );
+        reg_name( &l->m_Head.data, sizeof( l->m_Head.data ), "h.data" );
+        reg_name( &l->m_Tail.next, sizeof( l->m_Tail.next ), "t" );
+        reg_name( &l->m_Tail.data, sizeof( l->m_Tail.data ), "t.data" );
+    }
     ~IntrList()
     {
         l.reset();
         GC::force_dispose();
     }
-    bool insert( long k, long id ) override { return l->insert( *NodePool<item>::make( k, id )); }
+    bool insert( long k, long id ) override { return l->insert( *NodePool<item>::make( k, id, "e" )); }
     std::pair<bool, bool> update( long k, long id, bool allow, long& replaced ) override
     {
-        return l->update( *NodePool<item>::make( k, id ), [&replaced]( item&, item* old ) { if ( old ) replaced = old->val; }, allow );
+        return l->update( *NodePool<item>::make( k, id, "e" ), [&replaced]( item&, item* old ) { if ( old ) replaced = old->val; }, allow );
     }
     bool erase( long k, long& id ) override { return l->erase( k, [&id]( item const& i ) { id = i.val; } ); }
     bool find( long k, long& id ) override { return l->find( k, [&id]( item& i, long const& ) { id = i.val; } ); }
@@ -544,6 +602,7 @@ struct Fixture {
         g_hints = cs.optl( "hints", 1 ) != 0;
         g_scan = cs.optl( "scan", 1 ) != 0;
         g_dwell = int( cs.optl( "dwell", 2 ));
+        g_tieA = ( v == "ilist_hp" );
 
         // configuration that both instances of the fixture (program generation, run) derive from the case alone
         Rng r( cs.seed * 6364136223846793005ull + cs.index * 1442695040888963407ull + 99 );
@@ -597,7 +656,14 @@ struct Fixture {
         pool_flush();
     }
     std::string spec() const { return "none"; }
-    std::string header_extra() const { return std::string(); }
+    std::string header_extra() const
+    {
+        // tie A: the pre-filled keys, from which the Lean machine builds its initial state
+        if ( variant != "ilist_hp" ) return std::string();
+        std::string s = "prefill=";
+        for ( size_t i = 0; i < prefilled.size(); ++i ) s += ( i ? "," : "" ) + std::to_string( prefilled[i] );
+        return s;
+    }
 
     std::vector<std::vector<Op>> program( Rng& r, int nthreads, int nops )
     {
@@ -634,7 +700,15 @@ struct Fixture {
         }
         return p;
     }
-    void thread_begin( int ) { set_quiet( true ); cds::threading::Manager::attachThread(); set_quiet( false ); }
+    void thread_begin( int tid )
+    {
+        set_quiet( true ); cds::threading::Manager::attachThread(); set_quiet( false );
+        if ( g_tieA && tid == 0 ) {
+            // the iterating thread: its next free hazard slot will be the guard of the iterator `it` of do_walk
+            auto* g = cds::gc::HP::hp_implementation::tls()->hazards_.free_head_;
+            if ( g ) reg_name( &g->hp_, sizeof( g->hp_ ), "it.hp" );
+        }
+    }
     void thread_end( int ) { set_quiet( true ); cds::threading::Manager::detachThread(); set_quiet( false ); }
 
     std::vector<long> exec( int tid, Op const& op )
